@@ -89,11 +89,15 @@ package refopts
 
 // Given contracts so that mainImplementation is checked against them instead
 // of inlining their bodies (their own verification is listed where claimed).
-//@ func NewRefGroupBuilder
+//@ assumed func NewRefGroupBuilder
+//@   trust A-CALLEE-UNVERIFIED
 //@   modifies everything
-//@ func (*RefGroupBuilder).AddRefopts
+//@ assumed func (*RefGroupBuilder).AddRefopts
+//@   trust A-CALLEE-UNVERIFIED
 //@   modifies everything
-//@ func (*RefGroupBuilder).Finish
+//@ assumed func (*RefGroupBuilder).Finish
+//@   trust A-CALLEE-UNVERIFIED
 //@   modifies everything
-//@ func NewShowRefGrouper
+//@ assumed func NewShowRefGrouper
+//@   trust A-CALLEE-UNVERIFIED
 //@   pure
